@@ -63,7 +63,12 @@ def eval_case(case):
     shots = {k: rec.get("struct_%s_idx" % k) for k in ("before", "inner", "after")}
     model = {"fresh": S.nt, "nwp": len(case.get("wps", [])), "due": bool(op.get("due")),
              "dues": [int(t.get("due", -1)) for t in case["tasks"]], "shots": shots}
-    return {"violations": out, "model": model, "sig": simcheck.behaviour_sig(S, trace) + (bool(op.get("due")), bool(op.get("revlog", True)), tuple(crash or ())),
+    from .. import modelrun
+    dis = []
+    if rec["exc"] is None:
+        # the whole call against Model/BackwardRun.v (inner run on the reversed configuration + helpers, log reversal)
+        dis = modelrun.compare(dict(case, ops=[op]), trace[:1], modelrun.FULL)
+    return {"violations": out, "model": model, "disagreements": dis, "sig": simcheck.behaviour_sig(S, trace) + (bool(op.get("due")), bool(op.get("revlog", True)), tuple(crash or ())),
             "hist": dict(simcheck.base_hist(S, trace), crashed=int(rec["exc"] == "Crash")),
             "nontrivial": (rec.get("dump") or {}).get("time", 0) >= 2 or rec["exc"] == "Crash",
             "summary": {"exc": rec["exc"], "time": (rec.get("dump") or {}).get("time")}}
